@@ -578,8 +578,8 @@ def base_scenario(kind, seed, fw=32):
         sc["count_service"] = 0x4C
     elif kind == "readbit":
         # a bit of an integer: the library reads the word and picks the bit out of the reply itself
-        sc["op"] = {"texts": ["w.3"] if seed % 2 else ["d", "w.3"]}
-        sc["count_service"] = 0x4C if seed % 2 else 0x0A
+        sc["op"] = {"texts": ["w.3"]}
+        sc["count_service"] = 0x4C
     elif kind == "readboolarr":
         sc["op"] = {"texts": [("ba[5]", "ba[0]{40}", "ba[33]")[seed % 3]]}
         sc["count_service"] = 0x4C
